@@ -21,6 +21,7 @@ type Clause struct {
 type LoopSpec struct {
 	Invariants []Clause
 	Steps      []Clause // checked at the end of every iteration (and at exits from inside the body); may use prev(e)
+	Entries    []Clause // checked once, when the loop is first reached (what the state is before the first iteration)
 }
 
 type FuncSpec struct {
@@ -237,7 +238,7 @@ func parseSpecExpr(text string) (ast.Expr, error) {
 
 var clauseKeywords = map[string]bool{"func": true, "pure": true, "requires": true, "ensures": true, "modifies": true,
 	"invariant": true, "assume": true, "prop": true, "inline": true, "trusted": true, "iter": true, "site": true,
-	"ghost": true, "params": true, "results": true, "purefn": true, "opaque": true, "guarded": true, "maypanic": true, "traced": true, "assumepre": true, "step": true, "chanrecv": true, "chansend": true, "tracechans": true, "allowunsafe": true}
+	"ghost": true, "params": true, "results": true, "purefn": true, "opaque": true, "guarded": true, "maypanic": true, "traced": true, "assumepre": true, "step": true, "chanrecv": true, "chansend": true, "tracechans": true, "allowunsafe": true, "entry": true}
 
 func (c *Contracts) parseFile(path string) error {
 	data, err := os.ReadFile(path)
@@ -432,6 +433,23 @@ func (c *Contracts) parseFile(path string) error {
 					return fail(err)
 				}
 				ls.Invariants = append(ls.Invariants, k)
+			case "entry":
+				// entry <loop ordinal> [label:] expr     obligation at the first arrival at the loop (not an invariant)
+				f := strings.SplitN(cl.rest, " ", 2)
+				n, err := strconv.Atoi(f[0])
+				if err != nil || len(f) < 2 {
+					return fail(fmt.Errorf("entry needs a loop ordinal"))
+				}
+				ls := cur.Loops[n]
+				if ls == nil {
+					ls = &LoopSpec{}
+					cur.Loops[n] = ls
+				}
+				k, err := mkClause(strings.TrimSpace(f[1]), len(ls.Entries), fmt.Sprintf("e%d_", n))
+				if err != nil {
+					return fail(err)
+				}
+				ls.Entries = append(ls.Entries, k)
 			case "step":
 				// step <loop ordinal> [label:] expr     per-iteration contract; prev(e) = value of e at the head of the iteration
 				f := strings.SplitN(cl.rest, " ", 2)
